@@ -31,6 +31,8 @@ import traceback
 
 VERIF = os.path.dirname(os.path.dirname(os.path.abspath(__file__)))
 REPO = os.environ.get("NGS_REPO", "/repo")
+# number of deterministic unit batches (one fresh process each)
+BATCHES = int(os.environ.get("VERIF_BATCHES", "48"))
 MAX_RECORDS_PER_SIG = 25      # full records kept per signature per unit
 
 
@@ -245,6 +247,58 @@ def _worker_run(arg):
                         pass
 
 
+def _batch_run(items):
+    """One batch = a fixed sequence of units executed in order by one fresh
+    process (forked from the parent for this batch only), so that whatever
+    state the code under test keeps between calls has a deterministic,
+    replayable history: the batch prefix."""
+    out = []
+    done = []
+    for it in items:
+        idx, res, err = _worker_run(it)
+        done.append(idx)
+        if res is not None:
+            for rec in res["violations"]:
+                rec["batch_prefix"] = list(done)
+        out.append((idx, res, err))
+    return out
+
+
+def _confirm_child(arg):
+    """Re-execution of a violation in a fresh process: the case alone, its
+    whole unit, or the batch prefix (sequence of units) that preceded it."""
+    kind, payload, sig = arg
+    with _Quiet():
+        try:
+            if kind == "case":
+                recs = _MOD.replay(payload)
+            else:
+                recs = []
+                for unit in payload:
+                    recs = _MOD.run_unit(unit)["violations"]
+                    # only the last unit of the sequence must show it
+            return [r for r in recs if r["sig"] == sig][:1], None
+        except BaseException:
+            return [], traceback.format_exc()
+
+
+def _in_fresh_child(ctx, modname, scratch, arg):
+    with ctx.Pool(1, initializer=_worker_init, initargs=(modname, scratch),
+                  maxtasksperchild=1) as pool:
+        return pool.apply(_confirm_child, (arg,))
+
+
+def _preimport():
+    """third-party libraries only (never the package under test), so that
+    the per-batch children do not pay for their import"""
+    for name in ("numpy", "nibabel", "PIL.Image", "requests", "skimage",
+                 "_pyio"):
+        try:
+            importlib.import_module(name)
+        except Exception:
+            pass
+
+
 # --------------------------------------------------------------------------
 def repo_state():
     def git(*a):
@@ -312,18 +366,15 @@ def _run_check(mod, modname, prop_id, tier, seed, jobs, scratch, t0,
     results = [None] * n_units
     errors = []
     ctx = multiprocessing.get_context("fork")
-    if jobs <= 1:
-        _worker_init(modname, scratch)
-        for w in work:
-            i, res, err = _worker_run(w)
-            if err:
-                errors.append((i, err))
-            results[i] = res
-    else:
-        with ctx.Pool(jobs, initializer=_worker_init,
-                      initargs=(modname, scratch)) as pool:
-            for i, res, err in pool.imap_unordered(_worker_run, work,
-                                                   chunksize=1):
+    _preimport()
+    # deterministic batches (strided, so every batch mixes simple and
+    # complex units); each batch runs in its own fresh child process
+    nb = max(1, min(n_units, BATCHES))
+    batches = [work[b::nb] for b in range(nb)]
+    with ctx.Pool(max(1, jobs), initializer=_worker_init,
+                  initargs=(modname, scratch), maxtasksperchild=1) as pool:
+        for out in pool.imap_unordered(_batch_run, batches, chunksize=1):
+            for i, res, err in out:
                 if err:
                     errors.append((i, err))
                 results[i] = res
@@ -360,35 +411,38 @@ def _run_check(mod, modname, prop_id, tier, seed, jobs, scratch, t0,
     exit_code = 0
     confirmed = False
     lines = []
-    _worker_init(modname, scratch)
     replay_dir = os.path.join(os.environ.get(
         "VERIF_REPLAY_DIR", os.path.join(VERIF, "replays")), prop_id)
     for sig in sorted(by_sig):
-        rec = by_sig[sig][0]         # units are simplest-first
-        with _Quiet():
-            try:
-                again = mod.replay(rec["case"])
-                err = None
-            except BaseException:
-                again, err = [], traceback.format_exc()
+        rec = min(by_sig[sig], key=lambda r: (r.get("unit", 0),))
+        # every re-execution happens in a fresh child process
+        again, err = _in_fresh_child(ctx, modname, scratch,
+                                     ("case", rec["case"], sig))
         history_dependent = False
-        if err or not any(a["sig"] == sig for a in again):
+        unit_sequence = None
+        if err or not again:
             # not reproducible in isolation: does the whole unit (the same
-            # sequence of cases in one process) reproduce it? Then the
+            # sequence of cases in one process) reproduce it, or the
+            # sequence of units its batch had executed before it? Then the
             # violation depends on the history - state kept by the code
-            # under test between calls - and the unit is the artefact.
+            # under test between calls - and that sequence is the artefact.
             uidx = rec.get("unit")
-            ures = None
+            found = []
             if uidx is not None and not err:
-                with _Quiet():
-                    try:
-                        ures = mod.run_unit(units[uidx])
-                    except BaseException:
-                        ures = None
-            if ures is not None and any(v["sig"] == sig
-                                        for v in ures["violations"]):
-                history_dependent = True
-            else:
+                found, err2 = _in_fresh_child(ctx, modname, scratch,
+                                              ("units", [units[uidx]], sig))
+                if found:
+                    history_dependent = True
+                    unit_sequence = [uidx]
+                elif len(rec.get("batch_prefix") or []) > 1:
+                    seq = rec["batch_prefix"]
+                    found, err2 = _in_fresh_child(
+                        ctx, modname, scratch,
+                        ("units", [units[i] for i in seq], sig))
+                    if found:
+                        history_dependent = True
+                        unit_sequence = list(seq)
+            if not history_dependent:
                 print("NONDETERMINISM property=%s signature=%s: violation "
                       "did not reproduce on re-execution%s"
                       % (prop_id, sig, ("\n" + err) if err else ""))
@@ -405,6 +459,8 @@ def _run_check(mod, modname, prop_id, tier, seed, jobs, scratch, t0,
                        else None, "tier": tier,
                        "unit_descriptor": units[rec["unit"]]
                        if history_dependent else None,
+                       "unit_sequence": [units[i] for i in unit_sequence]
+                       if unit_sequence else None,
                        "case": rec["case"], "expected": rec["expected"],
                        "observed": rec["observed"],
                        "witnesses_with_this_signature": len(by_sig[sig]),
@@ -514,7 +570,9 @@ def run_replay(prop_id, path):
             if rp.get("history_dependent"):
                 # the artefact is the whole unit: the violation needs the
                 # sequence of calls that precede it in one process
-                res = mod.run_unit(rp["unit_descriptor"])
+                seq = rp.get("unit_sequence") or [rp["unit_descriptor"]]
+                for unit in seq:
+                    res = mod.run_unit(unit)
                 recs = [r for r in res["violations"]
                         if r["sig"] == rp["signature"]]
             else:
